@@ -1,6 +1,6 @@
 //! spec -> impl: execute cases / behaviours emitted by TLC.
 use serde_json::Value;
-use sos_verif_harness::{account_world, crash_world, crypto_world, server_world, eventlog_world, sync_world, summary::Summary, tree_world};
+use sos_verif_harness::{account_world, crash_world, crypto_world, leak_world, server_world, eventlog_world, sync_world, summary::Summary, tree_world};
 use std::io::BufRead;
 
 fn read_lines(path: &str) -> Vec<Value> {
@@ -141,6 +141,34 @@ fn main() {
                 if let Err(e) = crash_world::run_cases(&cases, &scratch, &child, &mut out, &known).await {
                     eprintln!("harness error: {e:?}");
                     std::process::exit(3);
+                }
+            });
+        }
+        "leak" => {
+            // replay leak <cases.ndjson> <scratch> <first-index>
+            let scratch = std::path::PathBuf::from(&args[3]);
+            sos_verif_harness::init_audit(&scratch);
+            let cases = read_lines(&args[2]);
+            let first: usize = args.get(4).and_then(|s| s.parse().ok()).unwrap_or(0);
+            let rt = tokio::runtime::Builder::new_multi_thread()
+                .worker_threads(3)
+                .enable_all()
+                .build()
+                .unwrap();
+            rt.block_on(async {
+                let mut counter = first * 7;
+                match leak_world::selftest() {
+                    Ok(n) => out.count("scanner_selftest_forms", n),
+                    Err(e) => {
+                        eprintln!("harness error: {e:?}");
+                        std::process::exit(3);
+                    }
+                }
+                for (i, c) in cases.iter().enumerate() {
+                    if let Err(e) = leak_world::run_case(first + i, c, &scratch, &mut out, &mut counter).await {
+                        eprintln!("harness error: {e:?}");
+                        std::process::exit(3);
+                    }
                 }
             });
         }
